@@ -23,7 +23,7 @@ MIN_DISTINCT = 50
 
 def plan(tier, seed):
     n = 16 if tier == "quick" else 48
-    total = 2500 if tier == "quick" else 60000
+    total = 2500 if tier == "quick" else 400000
     return [{"part": i, "parts": n, "seed": seed, "tier": tier, "count": total // n} for i in range(n)]
 
 
@@ -84,13 +84,13 @@ def gen_program(rnd):
     elif kind == "diff2":
         expr = ("bin", "-", ("bin", "+", apm.num(K), ("bin", "*", apm.num(rnd.choice([2, 3])), ("grp", diff()))), ("grp", diff()))
     elif kind == "viasym":
-        extra_defs.append(apm.assign("span", diff()))
+        extra_defs.append(apm.assign("span", diff(), extern=nfiles > 1))
         expr = ("bin", "+", ("sym", "span"), apm.num(K))
     elif kind == "aliascoef":
         # labels reached through aliases (possibly assigned before the labels exist), with coefficients other than +1
         a, b = rnd.sample(labels, 2) if len(labels) >= 2 else (labels[0], labels[0])
-        extra_defs.append(apm.assign("palias", ("bin", "+", ("sym", a), apm.num(rnd.choice([0, 2, 6])))))
-        extra_defs.append(apm.assign("qalias", ("sym", b)))
+        extra_defs.append(apm.assign("palias", ("bin", "+", ("sym", a), apm.num(rnd.choice([0, 2, 6]))), extern=nfiles > 1))
+        extra_defs.append(apm.assign("qalias", ("sym", b), extern=nfiles > 1))
         c = rnd.choice([1, 2, 3])
         expr = ("bin", "-", ("bin", "+", apm.num(K), ("bin", "*", apm.num(c), ("sym", "palias"))), ("bin", "*", apm.num(c), ("sym", "qalias")))
         if rnd.random() < 0.3:
@@ -153,6 +153,7 @@ def gen_program(rnd):
                 f.stmts.insert(pos, apm.dotassign(e))
                 f.stmts.insert(pos + 1, apm.label(f"afterskip{len(f.stmts)}"))
                 f.stmts.insert(pos + 2, apm.data(".byte", apm.num(0o125)))
+                f.stmts.insert(pos + 3, apm.simple(".even"))
                 skip_tag = f"skip|{'back' if back else 'fwd'}|{how}|{n}"
                 break
     # probes: every label value
